@@ -80,7 +80,7 @@ def run(scenario, queries, variant="real", stage="ops", hprep=False, timeout=600
     lines = [l.split() for l in out.split("\n") if l.strip()]
     r.raw_input = inp
     if rc != 0:
-        r.crash = (rc, err[-1500:])
+        r.crash = (rc, pv.sanitizer_digest(err) or err[-1500:])
     seen_built = False
     pre = []
     for t in lines:
